@@ -132,6 +132,8 @@ def valid_plan(ctx):
             ("ValidRejected", valid_cfgs([2], [0, 1], 2), 3, 1, two, None, None),       # 5k
             ("ValidTTL3", valid_cfgs([3], [1], 4), 5, 0, one, None, None),              # 1k
             ("ValidDeep", valid_cfgs([2], [0, 3], 8), 3, 0, one, None, None),           # 6k: grow to 8, wrap, shrink
+            # TTL "forever" (the driver maps a TTL of 10^6 units to the largest time.Duration): nothing ever expires
+            ("ValidForever", valid_cfgs([1000000], [0, 2], 3), 3, 0, one, None, None),
         ]
     return [
         ("ValidTopics", valid_cfgs([2, 3], [0, 1, 2, 4], 4), 5, 0, two, None, None),
@@ -139,6 +141,7 @@ def valid_plan(ctx):
         ("ValidDeep", valid_cfgs([2, 3], [0, 1, 3], 9), 4, 0, one, None, None),
         ("ValidDeeper", [dict(kind="valid", n=0, auto=a, ttl=2, gci=0, maxputs=12) for a in (False, True)], 4, 0, one, None, None),
         ("ValidSim", valid_cfgs([3, 5], [0, 2, 7], 40), 60, 3, two, "num=100", 80),
+        ("ValidForever", valid_cfgs([1000000], [0, 2], 5), 4, 0, one, None, None),
     ]
 
 
